@@ -193,6 +193,29 @@ def run_swv(c, cnt, viol):
         viol.append({"monitor": "O-naive", "mech": "swv-writeable", "msg": f"{tag}: the view is writeable"})
 
 
+def modes_agree(call, args, out, cnt, viol, tag, name):
+    """The documented value does not depend on how the operands are handed over or on graph tracking: the same call under
+    no_autodiff, and with the float array operands wrapped as non-constant tensors, must return bit-identical values."""
+    import mygrad as mg
+    variants = []
+    try:
+        with mg.no_autodiff, np.errstate(all="ignore"):
+            variants.append(("under no_autodiff", call(*args)))
+        targs = tuple(mg.tensor(a) if isinstance(a, np.ndarray) and a.dtype.kind == "f" else a for a in args)
+        with np.errstate(all="ignore"):
+            variants.append(("with non-constant tensor operands", call(*targs)))
+    except Exception as e:
+        viol.append({"monitor": "modes", "mech": f"mode-raises:{name}", "msg": f"{tag}: {type(e).__name__}: {e} (accepted with array operands while tracking)"})
+        return
+    for how, o2 in variants:
+        cnt["mode_compared"] = cnt.get("mode_compared", 0) + 1
+        a, b_ = np.asarray(out.data if hasattr(out, "data") and not isinstance(out, np.ndarray) else out), \
+            np.asarray(o2.data if hasattr(o2, "data") and not isinstance(o2, np.ndarray) else o2)
+        if a.dtype != b_.dtype or a.shape != b_.shape or not np.array_equal(a, b_, equal_nan=True):
+            viol.append({"monitor": "modes", "mech": f"mode-value:{name}", "msg": f"{tag}: {how} the result is {np.ravel(b_)[:3]} ({b_.dtype}{b_.shape}), otherwise {np.ravel(a)[:3]} ({a.dtype}{a.shape})"})
+            return
+
+
 def run_conv(c, cnt, viol):
     import mygrad as mg
     from mygrad.nnet.layers import conv_nd
@@ -223,6 +246,7 @@ def run_conv(c, cnt, viol):
     strided_monitor(cnt, viol, tag)
     want = RN.conv_ref(x, w, stride, pad, dil)
     cnt["layer_compared"] = cnt.get("layer_compared", 0) + 1
+    modes_agree(lambda x_, w_: conv_nd(x_, w_, stride=stride, padding=pad, dilation=dil), (x, w), out, cnt, viol, tag, "conv_nd")
     if not close(out.data, want, 256):
         viol.append({"monitor": "O-naive", "mech": "conv-value", "msg": f"{tag}: differs from the documented cross-correlation (max abs diff "
                      f"{np.max(np.abs(out.data - want)) if out.shape == want.shape else 'shape ' + str(out.shape) + ' vs ' + str(want.shape)})"})
@@ -256,6 +280,7 @@ def run_pool(c, cnt, viol):
     strided_monitor(cnt, viol, tag)
     want = RN.max_pool_ref(x, pool, stride)
     cnt["layer_compared"] = cnt.get("layer_compared", 0) + 1
+    modes_agree(lambda x_: max_pool(x_, pool, stride), (x,), out, cnt, viol, tag, "max_pool")
     if out.shape != want.shape or not np.array_equal(out.data, want):
         viol.append({"monitor": "O-naive", "mech": "pool-value", "msg": f"{tag}: differs from the window maxima"})
 
@@ -282,6 +307,7 @@ def run_batchnorm(c, cnt, viol):
         return
     want = RN.batchnorm_ref(x, g, b, c["eps"])
     cnt["layer_compared"] = cnt.get("layer_compared", 0) + 1
+    modes_agree(lambda x_: batchnorm(x_, gamma=g, beta=b, eps=c["eps"]), (x,), out, cnt, viol, tag, "batchnorm")
     if not close(out.data, want, 4096):
         viol.append({"monitor": "O-naive", "mech": "batchnorm-value", "msg": f"{tag}: differs from (x-mean)/sqrt(var+eps)*gamma+beta, max abs diff {np.max(np.abs(out.data - want))}"})
 
@@ -315,6 +341,7 @@ def run_softmax(c, cnt, viol):
         cnt["softmax_ref_rejects"] = cnt.get("softmax_ref_rejects", 0) + 1
         return
     cnt["layer_compared"] = cnt.get("layer_compared", 0) + 1
+    modes_agree(lambda x_: f(x_, **kw), (x,), out, cnt, viol, tag, c["fn"])
     if not close(out.data, want, 256):
         viol.append({"monitor": "O-naive", "mech": f"{c['fn']}-value", "msg": f"{tag}: differs from the documented normalisation"})
 
@@ -370,6 +397,7 @@ def run_loss(c, cnt, viol):
         return
     want = ref(*args, **kw)
     cnt["layer_compared"] = cnt.get("layer_compared", 0) + 1
+    modes_agree(lambda *a: getattr(Ls, fn)(*a, **kw), args, out, cnt, viol, tag, fn)
     if not close(out.data, want, 1024):
         viol.append({"monitor": "O-naive", "mech": f"loss-value:{fn}", "msg": f"{tag}: {np.ravel(out.data)[:3]} vs documented {np.ravel(want)[:3]}"})
 
